@@ -747,8 +747,8 @@ def run(tier):
 
     # ---- all generating / model-checking TLC runs side by side
     tree_cfgs = ["BinImageTrees.cfg"] if quick else ["BinImageTrees_t3.cfg", "BinImageTrees_t4.cfg"]
-    gens = [(2, 5, None), (3, 5, 1000)] if quick else [(2, 5, None), (3, 5, None), (3, 6, 60000)]
-    n_sim = 300 if quick else 5000
+    gens = [(2, 5, None), (3, 5, 1000)] if quick else [(2, 5, None), (3, 5, None), (3, 6, 40000)]
+    n_sim = 300 if quick else 4000
     jobs = [("mc", ("C16", "BinImageMC", "BinImageMC.cfg"), dict(env={"MC_LEVEL": 4 if quick else 5}, heap="6g", timeout=2400, workers=4 if quick else 8,
                     require_actions=("MCNew", "MCAdd", "MCAppend", "MCSetSize", "MCJoin", "MCUpdateOffsets")))]
     jobs += [("mc", ("C16", "BinImageTrees", cfg), dict(coverage=False, workers=2 if quick else 4, heap="6g", timeout=2400)) for cfg in tree_cfgs]
@@ -790,8 +790,8 @@ def run(tier):
         n_abstract += len(abstract)
 
     # ---- sampled trees beyond the enumerated space (depth 4, bigger numbers), valid-by-construction trees for the format lanes
-    n_rand = 2000 if quick else 60000
-    n_pack = 1200 if quick else 40000
+    n_rand = 2000 if quick else 40000
+    n_pack = 1200 if quick else 20000
 
     def do_rand(i):
         rr = rng(PROP, "rand", i)
@@ -807,7 +807,7 @@ def run(tier):
     traces += [lookalike_trace(30000000 + i, p, rng(PROP, "look", i)) for i, p in enumerate(LOOKALIKES)]
 
     # ---- files of an independent encoder, loaded by SPSDK
-    n_raw = 500 if quick else 10000
+    n_raw = 500 if quick else 6000
     traces += pmap(lambda i: raw_file_trace(60000000 + i, rng(PROP, "raw", i)), range(n_raw), chunksize=64)
     pipe.feed(traces, sample_at=n_rand + 1)
     say(f"[C16] {len(traces)} sampled trees / raw files replayed ({v.timer.s()}s)")
@@ -827,7 +827,7 @@ def run(tier):
     if len(sim) < n_sim // 2:
         raise Machinery(f"simulation produced only {len(sim)} behaviours\n{sim_res.out[-1500:]}")
     hists += sim
-    n_rh = 600 if quick else 30000
+    n_rh = 600 if quick else 20000
     n_hist = 0
     for k in range(0, len(hists), 60000):
         part = hists[k:k + 60000]
